@@ -760,19 +760,33 @@ func run(c *core.Ctx) {
 		// deferred: mutation lattices only, faults among the deferred kinds only (deep
 		// chains of thunks below a serially executed top-level field)
 		deferred bool
+		// lists: only lattices whose first level is a list of nullable abstract items (a
+		// second wrong answer for the same field of the same plan is not masked by the
+		// first one nulling the whole list)
+		lists bool
 	}
-	phases := []phase{{false, 1, false}, {true, 2, false}, {true, 3, true}}
+	phases := []phase{{false, 1, false, false}, {true, 2, false, false}, {true, 3, true, false}, {false, 2, false, true}}
 	if !c.Quick() {
-		phases = []phase{{false, 2, false}, {true, 3, false}, {true, 4, true}}
+		phases = []phase{{false, 2, false, false}, {true, 3, false, false}, {true, 4, true, false}, {false, 3, false, true}}
 	}
+	c.R.Bounds["faults_on_lists_of_nullable_abstract_items"] = phases[3].k
 	c.R.Bounds["deferred_only_faults_on_mutation_lattices"] = phases[2].k
 	c.R.Bounds["faults_full_lattice"] = phases[0].k
 	c.R.Bounds["faults_reduced_lattice"] = phases[1].k
 	for _, ph := range phases {
 		ls := lattices(ph.reduced)
+		sel := 0
 		c.R.Bounds[fmt.Sprintf("lattices_reduced=%v", ph.reduced)] = len(ls)
 		for li, l := range ls {
-			if !c.Mine(li) {
+			if ph.lists {
+				if !((l.w1 == 2 || l.w1 == 3) && l.l1 != 0 && (l.w2 == 0 || l.w2 == 2) && l.w3 == 0 && l.leaf == 1) {
+					continue
+				}
+				sel++
+				if !c.Mine(sel) {
+					continue
+				}
+			} else if !c.Mine(li) {
 				continue
 			}
 			if c.Expired() {
